@@ -734,6 +734,9 @@ type oracleCase struct {
 	// build re-creates the self-contained lines and the expected argv from a smaller value
 	// (expand-once, regex-exact) or word list (quote-roundtrip); used for shrinking
 	build func(value string, words []string) (lines []string, want []string)
+	// multi-chunk: the pieces of the word ("q:text" quoted literal, "p:text" unquoted plain text,
+	// "v:NAME" $NAME, "b:NAME" ${NAME}); build takes them as its word list
+	pieces []string
 }
 
 func perturb(v string) []string {
@@ -1009,7 +1012,7 @@ func (rn *runner) argvOf(lines []string) ([]string, bool) {
 // oracle evaluation on a recorded argv
 func (rn *runner) checkOracle(oc *oracleCase, argv []string, invoked bool) (fails bool, detail string) {
 	switch oc.name {
-	case "quote-roundtrip", "expand-once", "plain-split":
+	case "quote-roundtrip", "expand-once", "plain-split", "multi-chunk":
 		if !invoked {
 			return true, "the args command did not run"
 		}
@@ -1057,6 +1060,24 @@ func (rn *runner) handleOracle(oc *oracleCase, sc *script, o *scriptObs) {
 				a, ok := rn.argvOf(ls)
 				f, _ := rn.checkOracle(&oracleCase{name: oc.name, want: w, key: oc.key, value: v}, a, ok)
 				return f
+			}
+			if oc.name == "multi-chunk" {
+				ps := common.ShrinkList(oc.pieces, func(c []string) bool {
+					if !piecesValid(c) {
+						return false
+					}
+					ls, w := oc.build("", c)
+					a, ok := rn.argvOf(ls)
+					f, _ := rn.checkOracle(&oracleCase{name: oc.name, want: w}, a, ok)
+					return f
+				})
+				lines, want = oc.build("", ps)
+				a, ok = rn.argvOf(lines)
+				if f3, d3 := rn.checkOracle(&oracleCase{name: oc.name, want: want}, a, ok); f3 {
+					detail, argv = d3, a
+				}
+				rn.oracleFail(oc.name, lines, sc.names, detail, showWords(argv), showWords(want), map[string]string{"want": hexes(want)})
+				return
 			}
 			if oc.name == "quote-roundtrip" || oc.name == "plain-split" {
 				want = common.ShrinkList(want, func(c []string) bool { return failsWith("", c) })
@@ -1236,6 +1257,77 @@ func flatten(x [][]string) []string {
 	return out
 }
 
+
+// multi-chunk words: quoted chunks interleaved with unquoted text and references, where the
+// quoted literals and the values hold $NAME of defined variables; everything already
+// accumulated in the word must stay as it is when the next chunk starts
+func piecesValid(ps []string) bool {
+	for i, p := range ps {
+		if len(p) < 2 || p[1] != ':' {
+			return false
+		}
+		if i > 0 && p[0] == 'q' && ps[i-1][0] == 'q' {
+			return false // two adjacent quoted chunks would read as a doubled quote
+		}
+		if i > 0 && p[0] == 'p' && ps[i-1][0] == 'v' && startsAlnum(p[2:]) {
+			return false // the text would continue the name
+		}
+		if p[0] == 'p' && (p[2:] == "" || strings.ContainsAny(p[2:], specialBytes)) {
+			return false
+		}
+	}
+	return len(ps) > 0
+}
+
+func piecesWord(ps []string, vals map[string]string) (src, want string) {
+	for _, p := range ps {
+		switch p[0] {
+		case 'q':
+			src += sqGo(p[2:])
+			want += p[2:]
+		case 'p':
+			src += p[2:]
+			want += p[2:]
+		case 'v':
+			src += "$" + p[2:]
+			want += vals[p[2:]]
+		case 'b':
+			src += "${" + p[2:] + "}"
+			want += vals[p[2:]]
+		}
+	}
+	return
+}
+
+func genMultiChunk(r *common.RNG) (hist []string, vals map[string]string, pieces []string) {
+	a, v := "A", common.Pick(r, []string{"V", "K", "x", "_y"})
+	vals = map[string]string{
+		a: common.Pick(r, []string{"AVAL", "a val", "1", "$V", ""}),
+		v: common.Pick(r, []string{"$A", "${A}", "x$Ay", "$A $A", "'$A'", "${A@R}", "$" + v}),
+	}
+	hist = []string{"env " + sqGo(a+"="+vals[a]), "env " + sqGo(v+"="+vals[v])}
+	lits := []string{"lit$A", "$A", "${A}", "q", "", " sp ", "$" + v, "it''s", "#", "${A@R}", "$$", "x"}
+	plains := []string{"mid", "-", ".", "/x", "=", "@R", "{", "é"}
+	n := 3 + r.Intn(5)
+	for len(pieces) < n {
+		var p string
+		switch r.Intn(6) {
+		case 0, 1, 2:
+			p = "q:" + common.Pick(r, lits)
+		case 3:
+			p = "p:" + common.Pick(r, plains)
+		case 4:
+			p = "v:" + common.Pick(r, []string{a, v})
+		default:
+			p = "b:" + common.Pick(r, []string{a, v})
+		}
+		if piecesValid(append(append([]string{}, pieces...), p)) {
+			pieces = append(pieces, p)
+		}
+	}
+	return
+}
+
 // buildScript generates one script of ncases cases; returns oracle cases, trackers (per probe
 // item: the exactly known values), features per T item.
 func buildScript(r *common.RNG, sidx, ncases int, execEvery int) (*script, []*oracleCase, []map[string]string, map[int]feature) {
@@ -1350,6 +1442,24 @@ func buildScript(r *common.RNG, sidx, ncases int, execEvery int) (*script, []*or
 				build: func(v string, _ []string) ([]string, []string) {
 					return []string{"Henv " + sqGo(key+"="+v), "T" + line}, []string{pre + v + post}
 				}})
+		case k == 9: // oracle: a word of several quoted / unquoted chunks and references
+			hist, vals, pieces := genMultiChunk(r)
+			for _, h := range hist {
+				add(item{kind: 'H', text: h})
+			}
+			for n := range vals {
+				tr.set(n, vals[n])
+			}
+			mk := func(ps []string) ([]string, []string) {
+				src, want := piecesWord(ps, vals)
+				return []string{"H" + hist[0], "H" + hist[1], "Targs " + src}, []string{want}
+			}
+			lines, want := mk(pieces)
+			ft["oracle-multi-chunk"] = true
+			i := add(item{kind: 'T', text: lines[2][1:]})
+			feats[i] = ft
+			ocs = append(ocs, &oracleCase{name: "multi-chunk", script: sidx, item: i, want: want, lines: lines, pieces: pieces,
+				build: func(_ string, ps []string) ([]string, []string) { return mk(ps) }})
 		case k < 8: // oracle: ${k@R} matches exactly the value
 			key := common.Pick(r, validNames)
 			v := genValue(r)
@@ -2022,7 +2132,7 @@ func main() {
 		"test lines from a grammar of plain / single-quoted chunks, $NAME ${NAME} ${NAME@R}, special and malformed $-forms, comments, CR/tab separators, unterminated quotes, and a random special-character stream, "+
 		"after histories of env K=V lines (quoted, half-quoted, plain, through expansion, display form, odd keys) and ts.Setenv calls; every line is one evaluation (argv vs ts_parse), "+
 		"probes compare ts.Getenv with getenv, child observations compare the environment block of the helper with child_env; lines that do not reach args are re-run alone for the verdict; "+
-		"oracles without the model: quote-roundtrip, plain-split, expand-once, regex-exact, latest-wins, child-agrees, child-pwd; then %d strings each for quote_meta / utf8_ok / re_literal vs regexp, regexp/syntax, unicode/utf8 and os_expand vs os.Expand. "+
+		"oracles without the model: quote-roundtrip, plain-split, multi-chunk (words of 3-7 quoted / unquoted chunks and references whose literals and values hold $NAME), expand-once, regex-exact, latest-wins, child-agrees, child-pwd; then %d strings each for quote_meta / utf8_ok / re_literal vs regexp, regexp/syntax, unicode/utf8 and os_expand vs os.Expand. "+
 		"after every test line the model is asked c02_holds_on (the boolean form of the statements) for the line and a name/value of the case; "+
 		"%d scripts with one cmp/cmpenv line each (second file a template with $K ${K} ${K@R} $$ and exotic forms, first file the expansion known by construction / the raw text / a perturbation / a reference itself, verdict by construction and against do_cmd_cmp) and %d scripts passing variable-held file names (blanks, quotes, $, #, tab, CR) to cp / exists / stdin, with a must-fail control; env K=$OTHER chains are followed by the latest-wins tracker. "+
 		"A line is non-trivial when it contains a quote, $, #, CR or tab; distinct = distinct line text", nScripts, nCases, nStd, nCmp, nArgs)
@@ -2083,7 +2193,7 @@ func (rn *runner) replay(v common.Violation) {
 			oc.want = []string{}
 		}
 		switch name {
-		case "quote-roundtrip", "expand-once", "regex-exact", "plain-split":
+		case "quote-roundtrip", "expand-once", "regex-exact", "plain-split", "multi-chunk":
 			inv := o.inv[last]
 			var argv []string
 			if len(inv) == 1 {
